@@ -11,7 +11,7 @@ from mc.report import Report
 from oracles.smc_oracles import check_schedule
 
 LEVEL = "exploration"
-RULE = ("schedule-option grid (single-option sweeps + pairwise covering array in quick, full product in thorough; fixed schedules n=1..64/300, fixed schedules with a step cap, runs on a sampler object that already completed another run) x "
+RULE = ("schedule-option grid (single-option sweeps + pairwise covering array in quick, full product in thorough; fixed schedules n=1..64/300, fixed schedules with a step cap, runs on a sampler object that already completed another run - incl. ramped-then-scalar targets -, each compared with the same run on a fresh object) x "
         "every environment behaviour with at most D deviations (D=2 quick, 3 thorough): initial population and the "
         "population returned by the kernel after each of the first 4 iterations are chosen from a menu of 5 log-weight "
         "spreads (flat, 3, 1e3, 1e7, 1e9; the initial population may also contain a zero-likelihood particle), resampling index tuples of the first 3 resamplings are enumerated; "
@@ -84,6 +84,12 @@ def configs(tier):
             out.append({"N": 4, "opts": {"adaptive": True}, "sampler": sampler, "prior_call": prior})
             out.append({"N": 4, "opts": {"adaptive": False, "n_steps": 3}, "sampler": sampler, "prior_call": prior})
     out.append({"N": 4, "opts": {"adaptive": True, "min_step": 0.3}, "sampler": "smc", "prior_call": {"adaptive": True, "max_n_steps": 3}})
+    # an earlier run with a ramped target, then scalar targets (and the other way round)
+    for sampler in ("smc", "emcee_smc"):
+        out.append({"N": 4, "opts": {"adaptive": True, "target_efficiency": 0.5}, "sampler": sampler,
+                    "prior_call": {"adaptive": True, "target_efficiency": (0.3, 0.9)}})
+        out.append({"N": 4, "opts": {"adaptive": True, "target_efficiency": (0.3, 0.8)}, "sampler": sampler,
+                    "prior_call": {"adaptive": True, "target_efficiency": 0.9}})
     # larger fixed schedules with no environment deviation at all (cheap, catches accumulation errors)
     big = range(14, 65) if tier == "quick" else range(14, 301)
     for n in big:
@@ -113,6 +119,20 @@ def run_tree(cfg):
             prev = (pos, k)
         for sig, detail in check_schedule(rec):
             r.violation(sig, detail, {"cfg": cfg, "choices": ex.choices})
+        if cfg.get("prior_call"):
+            # differential: whatever the sampler object did before, the schedule of this run is the schedule of the
+            # same run (same environment answers) on a fresh object
+            fresh_cfg = {k: v for k, v in cfg.items() if k != "prior_call"}
+            ex2 = explorer.run_one(lambda ctx: run_execution(ctx, fresh_cfg), ex.choices)
+            rec2 = ex2.result
+            b2 = tuple(rec2["history"]["beta"]) if rec2["history"] else ()
+            e1 = rec["exception"][0] if rec["exception"] else None
+            e2 = rec2["exception"][0] if rec2["exception"] else None
+            r.case(explorer.digest([fresh_cfg, ex.choices, "fresh-twin"]), nontrivial=nontrivial)
+            if betas != b2 or e1 != e2:
+                r.violation("C06/schedule-differs-from-fresh-sampler-object", {"reused": list(betas)[-4:], "fresh": list(b2)[-4:],
+                                                                                  "exception_reused": e1, "exception_fresh": e2},
+                            {"cfg": cfg, "choices": ex.choices})
     r.sample({"cfg": cfg, "executions": n})
     r.count("option_configs")
     return r.dump()
